@@ -29,7 +29,11 @@ Supported(b) == CASE b = "default" -> {"euler", "heun", "scipy"}
 Adaptive(s) == s \notin {"euler", "heun"}
 ImmutableArrays(b) == b = "jax"
 RingBuffer(r) == r.delay \in {"edge", "mixed", "mixed2"} /\ ~Adaptive(r.solver)        \* discrete-delay ring buffer is emitted
-RaiseDefects == {"reserved_name", "undeclared_var", "value_missing_op", "value_missing_op_all", "edge_missing_source_node", "edge_missing_source_var",
+(* names a model variable may not take: PyRates-internal slots, sympy constants / singletons, function names *)
+ReservedNames == {"y", "dy", "source_idx", "target_idx", "pi", "I", "E", "S", "Q", "O", "N", "oo", "zoo", "nan", "beta", "gamma", "Beta", "Gamma",
+                  "exp", "log", "sin", "cos", "tan", "cot", "sec", "csc", "sinh", "cosh", "tanh", "sqrt", "abs"}
+ReservedDefects == {"reserved:" \o n : n \in ReservedNames}
+RaiseDefects == ReservedDefects \cup {"reserved_name", "undeclared_var", "value_missing_op", "value_missing_op_all", "edge_missing_source_node", "edge_missing_source_var",
                  "edge_missing_target_var", "output_missing_node", "output_missing_var", "two_outputs", "cyclic_ops"}
 WarnDefects == {"input_missing_var", "input_missing_node", "update_missing_var", "nodevalue_missing_node"}
 
